@@ -23,6 +23,7 @@ const modPath = "github.com/klev-dev/klevdb"
 // Prog is the shared program model: syntax + types, SSA, VTA call graph.
 type Prog struct {
 	Root  string // repository root (absolute)
+	SpecDir string
 	Pkgs  []*packages.Package
 	ByPath map[string]*packages.Package
 	Fset  *token.FileSet
@@ -31,6 +32,8 @@ type Prog struct {
 	Funcs []*ssa.Function // module functions with bodies (incl. anonymous, wrappers, instantiations)
 
 	ea        *ErrAtoms
+	ls        *Lockset
+	apiReachMemo map[*ssa.Function]map[string]bool
 	R         *Roles
 
 	Stats struct {
